@@ -429,6 +429,35 @@ func gen(seed uint64, tier string) {
 		k := []string{g.boundsTok(), tagKeeps[r.Intn(len(tagKeeps))], "all", "tags:" + fmt.Sprint(1+r.Intn(2)) + "="}[r.Intn(4)]
 		fmt.Fprintf(out, "p %d %s | %s\n", r.Intn(4), k, objsTok(objs))
 	}
+	// truncated input: XML and PBF cut at / inside the header, a block (object line), the end
+	ntr := ndocs / 5
+	for i := 0; i < ntr+4; i++ {
+		var objs []obj
+		if i < 4 {
+			_, objs = splitBar(strings.Fields("x | " + corpus[i]))
+		} else {
+			g.lo, g.hi = 0, 4
+			objs = g.doc(5+r.Intn(20), false)
+		}
+		k := []string{g.boundsTok(), "tags:1=1", "all"}[i%3]
+		n := len(objs)
+		for _, f := range []string{"x", "p1", "p2"} {
+			units := n
+			if f == "p2" {
+				units = (n + 2) / 3
+			}
+			cuts := []string{"h", "b0", fmt.Sprintf("b%d", 1+r.Intn(units)), fmt.Sprintf("m%d", 1+r.Intn(units)), fmt.Sprintf("b%d", units), fmt.Sprintf("m%d", units), fmt.Sprintf("f%d", 1+r.Intn(units))}
+			if i%4 == 0 {
+				cuts = append(cuts, "e")
+			}
+			for _, c := range cuts {
+				if i >= 4 && r.Intn(3) != 0 && c != "e" {
+					continue
+				}
+				fmt.Fprintf(out, "t %s %s %s | %s\n", f, c, k, objsTok(objs))
+			}
+		}
+	}
 	for i := 0; i < ndang; i++ {
 		objs := g.doc(5+r.Intn(30), true)
 		for _, k := range []string{g.boundsTok(), tagKeeps[r.Intn(len(tagKeeps))], "all"} {
